@@ -120,8 +120,9 @@ impl Strategy {
         );
 
         match state_next {
-            LeapfrogResult::Ok(_) => {}
-            LeapfrogResult::Divergence(_) => return Ok(()),
+            // A diverging trial step counts with the acceptance the collector
+            // recorded for it (zero): the search continues with smaller steps.
+            LeapfrogResult::Ok(_) | LeapfrogResult::Divergence(_) => {}
             LeapfrogResult::Err(err) => return Err(NutsError::LogpFailure(err.into())),
         }
 
@@ -145,11 +146,7 @@ impl Strategy {
                 &mut collector,
             );
             match state_next {
-                LeapfrogResult::Ok(_) => {}
-                LeapfrogResult::Divergence(_) => {
-                    *hamiltonian.step_size_mut() = self.options.initial_step;
-                    return Ok(());
-                }
+                LeapfrogResult::Ok(_) | LeapfrogResult::Divergence(_) => {}
                 LeapfrogResult::Err(err) => return Err(NutsError::LogpFailure(err.into())),
             }
             let accept_stat = collector.mean.current();
